@@ -1,0 +1,17 @@
+//go:build verif
+
+package transp
+
+import "github.com/paulsonkoly/chess-3/board"
+
+// This file is only compiled with the `verif` build tag. It exposes table
+// geometry and the lane matcher to external verification harnesses.
+
+// VerifBucketIx is the index of the bucket hash maps to.
+func (t *Table) VerifBucketIx(hash board.Hash) int { return t.bucketIx(hash) }
+
+// VerifBuckets is the number of buckets in t.
+func (t *Table) VerifBuckets() int { return len(t.data) }
+
+// VerifMatch64 exposes the 16 bit lane matcher.
+func VerifMatch64(w uint64, key uint16) (int, bool) { return match64(w, partialKey(key)) }
